@@ -15,7 +15,7 @@ RULE = ("masters: random + boundary scalars; ALL 5 word counts, ALL 49 byte coun
         "(exhaustive) x indexes {0, 1, 2^31-1, random}; WIF and XPRV x same indexes; rejection on both sides of every bound "
         "(word counts, bytes 15/65, length 19/87, index -1, -2^31, 2^31, 2^32, floats, None); the index_list handed to "
         "derive_path is recorded for every call; distinct = distinct (monitor, case) digests"
-        " EXTENSIONS: + a warm helper object of another master re-pointed at this master, fractional / non-int indexes, colliding parameters across applications")
+        " EXTENSIONS: + a warm helper object of another master re-pointed at this master, fractional / non-int indexes, colliding parameters across applications, three calling styles (keywords / positional / mixed) for every request and every refusal")
 LEVEL_TEXT = ("Every BIP85 output of the real API is compared with the reference BIP85 (own HMAC, own BIP32/BIP39/Base64); "
               "a probe on derive_path records the exact index list used by each call, which must be the application's fully "
               "hardened path, and the (application, parameter, index)->path map is checked injective over the whole run; "
@@ -83,7 +83,28 @@ def expected(xk, app, param, index):
     return rb85.pwd(xk, param, index), rb85.path_pwd(param, index)
 
 
-def call(b85, app, param, index):
+STYLES = ("kw", "pos", "mixed")
+
+
+def call(b85, app, param, index, style="kw"):
+    """The three ways a caller can write the same request: all keywords, all positional, parameter positional + index keyword."""
+    if style == "pos":
+        if app == "mnemonic":
+            return b85.bip39_mnemonic(param, index)
+        if app == "wif":
+            return b85.wif(index)
+        if app == "xprv":
+            return b85.xprv(index)
+        if app == "hex":
+            return b85.hex(param, index)
+        return b85.pwd(param, index)
+    if style == "mixed":
+        if app == "mnemonic":
+            return b85.bip39_mnemonic(param, index=index)
+        if app == "hex":
+            return b85.hex(param, index=index)
+        if app == "pwd":
+            return b85.pwd(param, index=index)
     if app == "mnemonic":
         return b85.bip39_mnemonic(word_count=param, index=index)
     if app == "wif":
@@ -120,8 +141,9 @@ def judge_output(ctx, case, tap):
     except rb32.InvalidChild:
         return None
     tap.calls.clear()
+    case.setdefault("style", ctx.rnd.choice(STYLES))
     try:
-        got, err = call(b85, app, param, index), None
+        got, err = call(b85, app, param, index, case["style"]), None
     except Exception as e:  # noqa
         got, err = None, e
     cls = "%s|%s|i%s" % (app, param if app == "mnemonic" else ("p-edge" if param in (16, 64, 20, 86) else "p"),
@@ -147,12 +169,18 @@ def judge_output(ctx, case, tap):
 
 
 def judge_reject(ctx, case):
+    if "style" not in case:
+        # every illegal request is written in all three calling styles
+        r = True
+        for st in STYLES:
+            r = judge_reject(ctx, dict(case, style=st)) and r
+        return r
     xk, b85, node = mk(case)
     app, param, index = case["app"], case.get("param"), case["index"]
-    ok, got, outcome = refused(lambda: call(b85, app, param, index))      # (stable refusal: asked three times in a row)
+    ok, got, outcome = refused(lambda: call(b85, app, param, index, case["style"]))      # (stable refusal: asked three times in a row)
     mech = "C12.reject.negative_index" if isinstance(index, int) and not isinstance(index, bool) and index < 0 and case["tag"].startswith("index") \
         else "C12.reject.%s" % case["tag"].split(":")[0]
-    return ctx.judge("reject", ok, case, "raise", got, cls="reject|%s|%s" % (app, case["tag"]), outcome=outcome.split(":")[0], mech=mech)
+    return ctx.judge("reject", ok, case, "raise", got, cls="reject|%s|%s|%s" % (app, case["tag"], case["style"]), outcome=outcome.split(":")[0], mech=mech)
 
 
 def judge_bip85_data(ctx, case, tap):
